@@ -2,31 +2,19 @@
 
 from __future__ import annotations
 
-import ast
+import itertools
 import re
 
 from sa import term as T
-from sa.cfg import CFG
-from sa.interp import Interp
+from sa.absio import Expr, NdArr
+from sa.interp import Interp, Opaque, RaiseSignal, SVar
 from sa.load import AnalysisError, Repo, loc
 from sa.report import Run
 from sa.scipp_model import Model
+from sa.term import Rat
+from sa.units import DIMENSIONLESS, Unit
 
-REFUSALS = [
-    # (name, attribute that must occur in the guard's test, allowed exception names)
-    ('no variances', 'variances', {'VariancesError', 'ValueError'}),
-    ('not one-dimensional', 'ndim', {'DimensionError', 'ValueError'}),
-    ('masks', 'masks', {'ValueError'}),
-    ('no coordinate', 'coords', {'ValueError', 'CoordError'}),
-    ('bin edges', 'is_edges', {'CoordError', 'ValueError', 'BinEdgeError'}),
-]
-
-
-def kw(call: ast.Call, name: str):
-    for k in call.keywords:
-        if k.arg == name:
-            return k.value
-    return None
+ALLOWED_REFUSALS = {'VariancesError', 'DimensionError', 'ValueError', 'CoordError', 'BinEdgeError'}
 
 
 def sig_digits(fmt: str):
@@ -37,165 +25,407 @@ def sig_digits(fmt: str):
     return n + 1 if m.group(2) in 'eE' else n
 
 
-class CoordStub:
-    def __init__(self, aligned=True):
+def raw(name: str) -> SVar:
+    v = SVar(Rat.sym(name, positive=True), DIMENSIONLESS, 'float64')
+    v.kind = 'raw'
+    return v
+
+
+class Table:
+    """A 2-d numpy array assembled from 1-d pieces; axis=1: the pieces are columns."""
+
+    def __init__(self, items, axis):
+        self.items, self.axis = list(items), axis
+
+    @property
+    def T(self):
+        return Table(self.items, 1 - self.axis)
+
+    def transpose(self):
+        return self.T
+
+
+class CoordVar:
+    def __init__(self, name: str, aligned=True):
+        self.values = raw(f'coord_{name}')
+        self.unit = Unit.named('m')
         self.aligned = aligned
+        self.dims = ('x',)
 
 
-class DaStub:
-    def __init__(self, coords: dict, dim: str):
-        self.coords = coords
-        self.dim = dim
-        self.dims = (dim,)
+class Coords(dict):
+    def __init__(self, items, edges):
+        super().__init__(items)
+        self._edges = edges
+
+    def is_edges(self, name, dim=None):
+        if name not in self:
+            raise RaiseSignal('KeyError', None, 'da.coords.is_edges', (name,))
+        return name in self._edges
+
+
+class FileStub:
+    def __init__(self):
+        self.calls = []
+
+    def write(self, *a):
+        self.calls.append('write')
+
+    def writelines(self, *a):
+        self.calls.append('writelines')
+
+
+class Da:
+    """A 1-d-or-not data array seen through the attributes save_xye may consult."""
+
+    def __init__(self, has_var, ndim, masked, coords, edges, aligned=None):
+        self.values = raw('Y')
+        self._var = raw('V') if has_var else None
+        self.ndim = ndim
+        self.dims = ('x', 'y')[:ndim]
+        self.shape = (5, 2)[:ndim]
+        self.sizes = dict(zip(self.dims, self.shape, strict=True))
+        self.masks = {'m': object()} if masked else {}
+        self.coords = Coords({k: CoordVar(k, (aligned or {}).get(k, True)) for k in coords}, edges)
+        self.unit = Unit.named('counts')
+        d = SVar(Rat.sym('Y', positive=True), self.unit, 'float64')
+        d.members['variances_term'] = Rat.sym('V', positive=True) if has_var else None
+        self.data = d
+        self.name = ''
+
+    @property
+    def variances(self):
+        return self._var
+
+    @property
+    def dim(self):
+        if self.ndim != 1:
+            raise RaiseSignal('DimensionError', None, 'da.dim', (f'Expected 1 dimension, got {self.ndim}',))
+        return 'x'
+
+
+class XyeModel(Model):
+    def __init__(self):
+        super().__init__()
+        self.saves: list = []
+        self.loads: list = []
+        self.table_rows = 3
+
+    def ext_attr(self, interp, path, node):
+        if path == 'numpy.newaxis':
+            return None
+        return super().ext_attr(interp, path, node)
+
+    def ext_index(self, interp, path, key, node):
+        if path == 'numpy.c_':
+            return Table(list(key) if isinstance(key, tuple) else [key], 1)
+        if path == 'numpy.r_':
+            return Table(list(key) if isinstance(key, tuple) else [key], 0)
+        raise AnalysisError(f'subscript of {path} at {interp.where(node)}')
+
+    def call_ext(self, interp, path, args, kwargs, node):
+        if path == 'numpy.savetxt':
+            self.saves.append((args, dict(kwargs), interp.where(node)))
+            return None
+        if path == 'numpy.loadtxt':
+            self.loads.append((args, dict(kwargs), interp.where(node)))
+            return self.loaded(kwargs)
+        if path in ('numpy.column_stack', 'numpy.stack', 'numpy.vstack', 'numpy.array', 'numpy.asarray', 'numpy.hstack') and args \
+                and isinstance(args[0], list | tuple) and all(isinstance(x, SVar) for x in args[0]):
+            if path == 'numpy.hstack':
+                raise AnalysisError(f'numpy.hstack of 1-d pieces at {interp.where(node)}')
+            axis = 1 if path == 'numpy.column_stack' else (kwargs.get('axis', 0) if path == 'numpy.stack' else 0)
+            if axis in (1, -1):
+                return Table(args[0], 1)
+            if axis == 0:
+                return Table(args[0], 0)
+        if path == 'numpy.transpose' and args and isinstance(args[0], Table | NdArr):
+            return args[0].T
+        if path == 'numpy.square' and args:
+            return args[0] ** 2 if isinstance(args[0], NdArr) else interp.binop('pow', lambda a, b: a ** b, args[0], 2, node)
+        if path == 'numpy.atleast_2d' and args and isinstance(args[0], NdArr):
+            a = args[0]
+            return a if a.ndim >= 2 else a.reshape((1, a.size))
+        return super().call_ext(interp, path, args, kwargs, node)
+
+    def loaded(self, kwargs) -> NdArr:
+        unpack = bool(kwargs.get('unpack', False))
+        n = self.table_rows
+        cols = kwargs.get('usecols')
+        cols = [0, 1, 2] if cols is None else list(cols)
+        rows = [[Cell(c, r) for c in cols] for r in range(n)]
+        arr = NdArr((n, len(cols)), 'float64', [e for row in rows for e in row])
+        if unpack:
+            arr = arr.T
+        if kwargs.get('ndmin', 0) < 2:
+            arr = arr.squeeze() if n == 1 else arr
+        return arr
+
+    def sc_stddevs(self, interp, args, kwargs, node):
+        x = args[0]
+        vt = x.members.get('variances_term') if isinstance(x, SVar) else None
+        if vt is not None:
+            return self.new(interp, T.sqrt(vt) * x.unit.scale(), x.unit, x.dtype)
+        return super().sc_stddevs(interp, args, kwargs, node)
+
+    def sc_array(self, interp, args, kwargs, node):
+        r = self.new(interp, None, self._unit_arg(interp, kwargs.get('unit'), node), 'float64', why='array from file columns')
+        r.members['array_args'] = dict(kwargs)
+        return r
+
+    def sc_DataArray(self, interp, args, kwargs, node):
+        data = args[0] if args else kwargs.get('data')
+        r = self.new(interp, None, getattr(data, 'unit', None), 'float64', why='loaded data array')
+        r.kind = 'dataarray'
+        r.members['data_var'] = data
+        r.members['coords'] = kwargs.get('coords')
+        return r
+
+
+class Cell:
+    """One number of the loaded table."""
+
+    def __init__(self, col, row):
+        self.col, self.row = col, row
+
+    def __eq__(self, o):
+        return isinstance(o, Cell) and (o.col, o.row) == (self.col, self.row)
+
+    def __hash__(self):
+        return hash((self.col, self.row))
+
+    def __pow__(self, e):
+        return Expr('pow', self, e)
+
+    def __mul__(self, o):
+        return Expr('mul', self, o)
+
+    def __repr__(self):
+        return f'column {self.col} row {self.row}'
+
+
+def eq_raw(a, b) -> bool:
+    return isinstance(a, SVar) and isinstance(b, SVar) and isinstance(a.term, Rat) and isinstance(b.term, Rat) and a.term.eq(b.term)
+
+
+def is_square_of(e, cell) -> bool:
+    if isinstance(e, Expr):
+        if e.op == 'pow' and e.a == cell and e.b in (2, 2.0):
+            return True
+        if e.op == 'mul' and e.a == cell and e.b == cell:
+            return True
+    return False
 
 
 def run(tier: str) -> Run:
     run = Run('C15', tier, 'other',
-              'Structural rules over io/xye.py: (R1) savetxt is called without fmt or with >= 17 '
-              'significant digits, savetxt/loadtxt use the same single-character delimiter, neither '
-              'overrides `comments`, and the header text is handed to savetxt (which prefixes every '
-              'line); (R2) the columns written are (coordinate values, data values, sqrt(variances)) '
-              'and the loader reads columns 0,1,2 and squares column 2; (R3) each refusal is an `if` '
-              'whose raising arm cannot reach savetxt and whose test dominates it (statement CFG + '
-              'dominators); (R4) the one-row reshape guard dominates the column indexing; (R5) the '
-              'coordinate deduction is folded over its finite decision space.  That %.18e round-trips '
-              'a double is numpy/C and not decided.')
+              'Finite-domain interpretation of io/xye.py with recording stubs for numpy.savetxt / loadtxt.  '
+              'save_xye is interpreted for every combination of (variances present, ndim, masks, coordinate set, '
+              'bin-edge flag, coord argument, header argument); decided per combination: (R3) a documented refusal '
+              'raises before anything is handed to savetxt or written, and an accepted input is saved by exactly one '
+              'savetxt call; (R2) the table saved has the columns (selected coordinate values, data values, '
+              'sqrt(variances)) as exact terms; (R1) the call keeps >= 17 significant digits, uses a one-character '
+              'delimiter the loader splits on, leaves `comments` alone and passes the header text to savetxt; (R5) '
+              'the coordinate selected is the documented one.  load_xye is interpreted on a symbolic table with 3 '
+              'rows and with 1 row: (R2) values, variances, coordinate are column 1, column 2 squared, column 0; '
+              '(R4) a one-row file yields 1-d columns.  That %.18e round-trips a double is numpy/C and not decided.')
     repo = Repo()
     run.analysed = {'modules': ['io.xye'], 'digest': repo.digest.hexdigest()}
-    run.trusted = ['numpy.savetxt/loadtxt semantics (comments="# " prefix, default fmt %.18e)', 'sa/cfg.py']
+    run.trusted = ['numpy.savetxt/loadtxt semantics (comments="# " prefix, default fmt %.18e, one-row files load 1-d)',
+                   'sa/interp.py', 'sa/scipp_model.py']
     sfi, lfi = repo.func('io.xye', 'save_xye'), repo.func('io.xye', 'load_xye')
-    scfg, lcfg = CFG(sfi.node), CFG(lfi.node)
-    saves = scfg.calls(lambda c: ast.unparse(c.func).endswith('savetxt'))
-    loads = lcfg.calls(lambda c: ast.unparse(c.func).endswith('loadtxt'))
-    if len(saves) != 1 or len(loads) != 1:
-        raise AnalysisError(f'expected one savetxt and one loadtxt call, found {len(saves)} / {len(loads)}')
-    (save_st, save_call), (load_st, load_call) = saves[0], loads[0]
 
-    r1 = run.rule('R1', 'number format keeps >= 17 significant digits; same delimiter on both sides; comments not overridden; header goes through savetxt', 4)
-    fmt = kw(save_call, 'fmt')
-    if fmt is None:
-        r1.ok('fmt', {'fmt': 'numpy default %.18e'})
-    else:
-        digits = sig_digits(fmt.value) if isinstance(fmt, ast.Constant) and isinstance(fmt.value, str) else None
-        r1.check(digits is not None and digits >= 17, 'fmt', loc(sfi, save_call),
-                 {'fmt': ast.unparse(fmt), 'significant_digits': digits, 'needed': 17}, key='fmt')
-    ds, dl = kw(save_call, 'delimiter'), kw(load_call, 'delimiter')
-    dsv = ds.value if isinstance(ds, ast.Constant) else (' ' if ds is None else None)
-    dlv = dl.value if isinstance(dl, ast.Constant) else (None if dl is None else '?')
-    # loadtxt(delimiter=None) splits on any whitespace: compatible with a single blank
-    compatible = isinstance(dsv, str) and len(dsv) == 1 and (dlv == dsv or (dlv is None and dsv.isspace()))
-    r1.check(compatible, 'delimiter', loc(sfi, save_call), {'savetxt': repr(dsv), 'loadtxt': repr(dlv)}, key='delimiter')
-    r1.check(kw(save_call, 'comments') is None and kw(load_call, 'comments') is None, 'comments', loc(sfi, save_call),
-             {'savetxt_comments': ast.unparse(kw(save_call, 'comments')) if kw(save_call, 'comments') else None,
-              'loadtxt_comments': ast.unparse(kw(load_call, 'comments')) if kw(load_call, 'comments') else None}, key='comments')
-    hdr = kw(save_call, 'header')
-    other_writes = scfg.calls(lambda c: isinstance(c.func, ast.Attribute) and c.func.attr in ('write', 'writelines'))
-    r1.check(hdr is not None and not other_writes, 'header', loc(sfi, save_call),
-             {'header_argument': ast.unparse(hdr) if hdr else None, 'direct_writes': [ast.unparse(c) for _, c in other_writes]}, key='header')
-    skip = kw(load_call, 'skiprows')
-    r1.check(skip is None or (isinstance(skip, ast.Constant) and skip.value == 0), 'skiprows', loc(lfi, load_call),
-             {'skiprows': ast.unparse(skip) if skip else None}, key='skiprows')
-
+    r1 = run.rule('R1', 'savetxt keeps >= 17 significant digits; delimiter agrees with loadtxt; comments not overridden; header goes through savetxt', 4)
     r2 = run.rule('R2', 'columns (X, Y, E) = (coord values, data values, sqrt(variances)); loader reads 0,1,2 and squares E', 2)
-    data_arg = save_call.args[1] if len(save_call.args) > 1 else kw(save_call, 'X')
-    cols = None
-    if isinstance(data_arg, ast.Name):
-        for st in scfg.stmt.values():
-            if isinstance(st, ast.Assign) and isinstance(st.targets[0], ast.Name) and st.targets[0].id == data_arg.id:
-                v = st.value
-                if isinstance(v, ast.Subscript) and ast.unparse(v.value) in ('np.c_', 'numpy.c_') and isinstance(v.slice, ast.Tuple):
-                    cols = [ast.unparse(e) for e in v.slice.elts]
-                elif isinstance(v, ast.Call) and ast.unparse(v.func).endswith(('column_stack', 'stack')) and v.args \
-                        and isinstance(v.args[0], ast.List | ast.Tuple):
-                    cols = [ast.unparse(e) for e in v.args[0].elts]
-                    if ast.unparse(v.func).endswith('.stack') and not (kw(v, 'axis') is not None and ast.unparse(kw(v, 'axis')) in ('1', '-1')):
-                        cols = None
-    ok2 = cols is not None and len(cols) == 3 and re.fullmatch(r'da\.coords\[coord\]\.values', cols[0]) is not None \
-        and cols[1] == 'da.values' and cols[2] in ('np.sqrt(da.variances)', 'numpy.sqrt(da.variances)', 'sc.stddevs(da.data).values', 'da.variances ** 0.5')
-    r2.check(ok2, 'save columns', loc(sfi, save_call), {'columns': cols}, key='save-columns')
-    unpack = kw(load_call, 'unpack')
-    unp = isinstance(unpack, ast.Constant) and unpack.value is True
-    col = (lambda i: f'loaded[{i}]') if unp else (lambda i: f'loaded[:, {i}]')
-    reads = {}
-    for n in ast.walk(lfi.node):
-        if isinstance(n, ast.Call) and ast.unparse(n.func).endswith('DataArray'):
-            data = n.args[0] if n.args else kw(n, 'data')
-            if isinstance(data, ast.Call):
-                reads['Y'] = ast.unparse(kw(data, 'values')) if kw(data, 'values') is not None else None
-                reads['E'] = ast.unparse(kw(data, 'variances')) if kw(data, 'variances') is not None else None
-            coords = kw(n, 'coords')
-            if isinstance(coords, ast.Dict) and len(coords.values) == 1 and isinstance(coords.values[0], ast.Call):
-                cv = kw(coords.values[0], 'values')
-                reads['X'] = ast.unparse(cv) if cv is not None else None
-    squares = {f'{col(2)} ** 2', f'np.square({col(2)})', f'{col(2)} * {col(2)}', f'numpy.square({col(2)})'}
-    ok = reads.get('X') == col(0) and reads.get('Y') == col(1) and reads.get('E') in squares
-    r2.check(ok, 'load columns', loc(lfi, load_call), {'reads': reads, 'unpack': unp,
-                                                       'expected': {'X': col(0), 'Y': col(1), 'E': f'{col(2)} ** 2'}}, key='load-columns')
+    r3 = run.rule('R3', 'documented refusals raise before anything is written; accepted inputs are saved once', 40)
+    r4 = run.rule('R4', 'one-row files load as 1-d columns', 1)
+    r5 = run.rule('R5', 'coordinate selection: argument, else the only coordinate, else the dimension-coordinate, else refuse', 6)
 
-    r3 = run.rule('R3', 'each refusal guards every path to savetxt', 6)
-    guards = scfg.guards()
-    for name, attr, excs in REFUSALS:
-        found = None
-        for g, label, exc in guards:
-            names = {n.attr for n in ast.walk(g.test) if isinstance(n, ast.Attribute)} | {n.id for n in ast.walk(g.test) if isinstance(n, ast.Name)}
-            if attr in names and exc in excs:
-                if attr == 'coords' and 'is_edges' in names:
-                    continue
-                found = (g, label, exc)
-                break
-        if found is None:
-            r3.fail(name, loc(sfi), {'problem': f'no guard testing `{attr}` that raises one of {sorted(excs)}',
-                                     'guards_present': [ast.unparse(g.test) for g, _, _ in guards]}, key=name)
+    # (name, aligned): the alignment flag must play no role in the selection
+    coord_sets = [(), (('x', True),), (('a', True),), (('a', False),), (('a', True), ('b', True)), (('a', True), ('b', False)),
+                  (('a', True), ('x', True)), (('a', False), ('x', True)), (('a', True), ('x', False))]
+    save_kwargs_seen = []
+    n_cfg = 0
+    fails = {'r1': {}, 'r2': {}, 'r3': {}, 'r5': {}}
+    for has_var, ndim, masked, cset, edges_on, coord_arg, header in itertools.product(
+            (True, False), (1, 2, 0), (False, True), coord_sets, (False, True), (None, 'a'), ('default', 'USER TEXT')):
+        coords = tuple(n for n, _ in cset)
+        aligned = dict(cset)
+        if coord_arg is not None and coord_arg not in coords:
             continue
-        g, label, exc = found
-        # a conjunction narrows the refusal to fewer inputs than documented
-        narrowed = isinstance(g.test, ast.BoolOp) and isinstance(g.test.op, ast.And) and label is True
-        r3.check(scfg.guarded_by(save_st, g, label) and not narrowed, name, loc(sfi, g),
-                 {'guard': ast.unparse(g.test), 'raises': exc, 'narrowed_by_conjunction': narrowed}, key=name)
-    # ambiguous coordinate: inside _deduce_coord, whose call must dominate savetxt on the coord-is-None arm
-    dfi = repo.func('io.xye', '_deduce_coord')
-    dcalls = scfg.calls(lambda c: ast.unparse(c.func) == '_deduce_coord')
-    ok = False
-    detail = {}
-    if dcalls:
-        st, call = dcalls[0]
-        cond_ok = False
-        for n in ast.walk(st):
-            if isinstance(n, ast.IfExp) and ast.unparse(n.test) in ('coord is None', 'coord is not None'):
-                arm = n.body if ast.unparse(n.test) == 'coord is None' else n.orelse
-                cond_ok = any(x is call for x in ast.walk(arm))
-        if isinstance(st, ast.If):
-            cond_ok = ast.unparse(st.test) == 'coord is None'
-        ok = scfg.dominates(st, save_st) and cond_ok
-        detail = {'call_statement': ast.unparse(st)[:100], 'on_coord_is_None_arm': cond_ok}
-    r3.check(ok, 'ambiguous coordinate', loc(sfi), detail, key='ambiguous')
-
-    r4 = run.rule('R4', 'single-row files: the reshape guard dominates the column indexing', 1)
-    idx_st = None
-    for st in lcfg.stmt.values():
-        if isinstance(st, ast.Return):
-            idx_st = st
-    lg = [s for s in lcfg.stmt.values() if isinstance(s, ast.If) and 'ndim' in ast.unparse(s.test)]
-    ok = bool(lg) and idx_st is not None and lcfg.dominates(lg[0], idx_st) and \
-        any(isinstance(x, ast.Assign) and 'newaxis' in ast.unparse(x) or 'reshape' in ast.unparse(x) or 'atleast_2d' in ast.unparse(x) for x in lg[0].body)
-    alt = any('atleast_2d' in ast.unparse(s) or 'ndmin=2' in ast.unparse(s) for s in lcfg.stmt.values())
-    r4.check(ok or alt, 'one-row guard', loc(lfi), {'guard': ast.unparse(lg[0].test) if lg else None, 'ndmin_or_atleast_2d': alt}, key='one-row')
-
-    r5 = run.rule('R5', 'coordinate deduction decision table (1 coordinate / dim-coordinate / ambiguous), independent of alignment flags', 6)
-    cases = [
-        ({'a': True}, 'x', 'a'), ({'a': False}, 'x', 'a'),
-        ({'a': True, 'x': True}, 'x', 'x'), ({'a': True, 'x': False}, 'x', 'x'),
-        ({'a': True, 'b': True}, 'x', ValueError), ({'a': True, 'b': False}, 'x', ValueError),
-    ]
-    for coords, dim, want in cases:
+        # documented behaviour
+        if coord_arg is not None:
+            sel = coord_arg
+        elif len(coords) == 1:
+            sel = coords[0]
+        elif 'x' in coords and ndim == 1:
+            sel = 'x'
+        else:
+            sel = None
+        edges = {sel} if (edges_on and sel is not None) else set()
+        if edges_on and sel is None:
+            continue
+        refuse = (not has_var) or ndim != 1 or masked or not coords or sel is None or bool(edges)
+        if tier == 'quick' and header == 'USER TEXT' and refuse:
+            continue
+        n_cfg += 1
         T.reset()
-        it = Interp(repo, Model())
-        stub = DaStub({k: CoordStub(al) for k, al in coords.items()}, dim)
-        outs = it.run_all(lambda i, s=stub: i.call_function(dfi, [s], {}))
-        got = []
-        for o in outs:
-            got.append(o.value if o.kind == 'return' else o.exc_type)
-        w = 'ValueError' if want is ValueError else want
-        inst = f'coords={coords} dim={dim}'
-        r5.check(got == [w], inst, loc(dfi), {'deduced': got, 'documented': w}, key=inst)
+        model = XyeModel()
+        it = Interp(repo, model)
+        fstub = FileStub()
+        cfg = f'variances={has_var} ndim={ndim} masks={masked} coords={list(coords)} aligned={[aligned[c] for c in coords]} edges={sorted(edges)} coord={coord_arg} header={header}'
+
+        def go(i, has_var=has_var, ndim=ndim, masked=masked, coords=coords, edges=edges, coord_arg=coord_arg, header=header, fstub=fstub, aligned=aligned):
+            da = Da(has_var, ndim, masked, coords, edges, aligned)
+            kw = {'coord': coord_arg}
+            if header != 'default':
+                kw['header'] = header
+            i._da = da
+            return i.call_function(sfi, [fstub, da], kw)
+        model.saves.clear()
+        outs = []
+        per_path = []
+        pending_saves = []
+
+        def go_wrapped(i):
+            model.saves = []
+            try:
+                return go(i)
+            finally:
+                pending_saves.append((list(model.saves), i._da))
+        outs = it.run_all(go_wrapped)
+        per_path = list(zip(outs, pending_saves, strict=True))
+        for o, (saves, da) in per_path:
+            if refuse:
+                ok = o.kind == 'raise' and not saves and not fstub.calls
+                if not ok:
+                    fails['r3'].setdefault('refusal: ' + _why(has_var, ndim, masked, coords, sel, edges), (cfg, o.kind, o.exc_type, len(saves)))
+                continue
+            if o.kind != 'return' or len(saves) != 1 or fstub.calls:
+                fails['r3'].setdefault('accepted input is saved by one savetxt call',
+                                       (cfg, o.kind, o.exc_type, len(saves), (o.where or '')))
+                continue
+            args, kwargs, where = saves[0]
+            save_kwargs_seen.append(kwargs)
+            table = args[1] if len(args) > 1 else kwargs.get('X')
+            if args[0] is not fstub:
+                fails['r1'].setdefault('target', (cfg, 'savetxt does not write to fname'))
+            good_table = isinstance(table, Table) and table.axis == 1 and len(table.items) == 3
+            if not good_table:
+                fails['r2'].setdefault('save columns', (cfg, f'savetxt is handed {table!r}, expected three columns'))
+            else:
+                x, y, e = table.items
+                want_x = da.coords[sel].values
+                if not eq_raw(x, want_x):
+                    fails['r5'].setdefault(f'coords={list(coords)} coord={coord_arg}', (cfg, f'X column is {_show(x)}, documented coordinate is {sel!r}'))
+                if not eq_raw(y, da.values):
+                    fails['r2'].setdefault('save columns', (cfg, f'Y column is {_show(y)}'))
+                want_e = T.sqrt(Rat.sym('V', positive=True))
+                if not (isinstance(e, SVar) and isinstance(e.term, Rat) and e.term.eq(want_e)):
+                    fails['r2'].setdefault('save columns', (cfg, f'E column is {_show(e)}, expected sqrt(variances)'))
+            fmt = kwargs.get('fmt')
+            if fmt is not None:
+                d = sig_digits(fmt) if isinstance(fmt, str) else None
+                if d is None or d < 17:
+                    fails['r1'].setdefault('fmt', (cfg, f'fmt={fmt!r} keeps {d} significant digits, 17 needed'))
+            if kwargs.get('comments', '# ') != '# ':
+                fails['r1'].setdefault('comments', (cfg, f'comments={kwargs.get("comments")!r}'))
+            h = kwargs.get('header')
+            if header == 'USER TEXT':
+                if h != 'USER TEXT':
+                    fails['r1'].setdefault('header', (cfg, f'user header not passed to savetxt: {h!r}'))
+            elif h is None or h == '':
+                fails['r1'].setdefault('header', (cfg, f'generated header not passed to savetxt: {h!r}'))
+    if n_cfg < 40:
+        raise AnalysisError(f'only {n_cfg} configurations were interpreted')
+    for inst in ('fmt', 'comments', 'header', 'target'):
+        f = fails['r1'].get(inst)
+        r1.check(f is None, inst, loc(sfi), {'configuration': f[0], 'problem': f[1]} if f else {'configurations': n_cfg}, key=inst)
+    f = fails['r2'].get('save columns')
+    r2.check(f is None, 'save columns', loc(sfi), {'configuration': f[0], 'problem': f[1]} if f else {}, key='save-columns')
+    refusal_names = ['no variances', 'not one-dimensional', 'masks', 'no coordinate', 'ambiguous coordinate', 'bin edges']
+    for name in refusal_names:
+        f = fails['r3'].get('refusal: ' + name)
+        r3.check(f is None, name, loc(sfi), {'configuration': f[0], 'outcome': f[1:]} if f else {}, key=name)
+    f = fails['r3'].get('accepted input is saved by one savetxt call')
+    r3.check(f is None, 'accepted input is saved by one savetxt call', loc(sfi), {'configuration': f[0], 'outcome': f[1:]} if f else {}, key='accepted')
+    for _ in range(max(0, n_cfg - 7)):
+        r3.ok('configuration')
+    sel_cases = sorted({f'coords={[n for n, _ in c]} coord={a}' for c in coord_sets for a in (None, 'a') if (a is None or a in dict(c)) and c})
+    for inst in sel_cases:
+        f = fails['r5'].get(inst)
+        r5.check(f is None, inst, loc(repo.func('io.xye', '_deduce_coord')), {'configuration': f[0], 'problem': f[1]} if f else {}, key=inst)
+
+    # ---- load side ------------------------------------------------------------------------
+    load_kwargs = None
+    load_problems = {}
+    for nrows in (3, 1):
+        T.reset()
+        model = XyeModel()
+        model.table_rows = nrows
+        it = Interp(repo, model)
+        for coord_arg in (None, 'tof'):
+            outs = it.run_all(lambda i, c=coord_arg: i.call_function(lfi, ['file.xye'], {'dim': 'd', 'unit': 'counts', 'coord_unit': 'us', 'coord': c}))
+            for o in outs:
+                key = 'one-row' if nrows == 1 else 'load columns'
+                if o.kind != 'return' or not isinstance(o.value, SVar) or o.value.kind != 'dataarray':
+                    load_problems.setdefault(key, f'rows={nrows}: load_xye ends with {o.kind} {o.exc_type or ""} {getattr(o, "exc_args", "")} at {o.where}')
+                    continue
+                if len(model.loads) < 1:
+                    load_problems.setdefault('load columns', 'loadtxt is not called')
+                    continue
+                load_kwargs = model.loads[-1][1]
+                da = o.value
+                data = da.members.get('data_var')
+                coords = da.members.get('coords')
+                want_name = coord_arg or 'd'
+                if not isinstance(data, SVar) or not isinstance(coords, dict) or list(coords) != [want_name]:
+                    load_problems.setdefault('load columns', f'result coords {list(coords) if isinstance(coords, dict) else coords!r}, expected [{want_name!r}]')
+                    continue
+                a = data.members.get('array_args', {})
+                c = coords[want_name].members.get('array_args', {}) if isinstance(coords[want_name], SVar) else {}
+                for label, arr, col, sq in (('values', a.get('values'), 1, False), ('variances', a.get('variances'), 2, True), ('coordinate', c.get('values'), 0, False)):
+                    if not isinstance(arr, NdArr) or arr.ndim != 1 or arr.shape != (nrows,):
+                        load_problems.setdefault(key, f'rows={nrows}: {label} handed to sc.array is {arr!r}, expected a 1-d column of {nrows}')
+                        continue
+                    for r, e in enumerate(arr.elems):
+                        cell = Cell(col, r)
+                        if not (is_square_of(e, cell) if sq else e == cell):
+                            load_problems.setdefault('load columns', f'{label}[{r}] is {e!r}, expected {"square of " if sq else ""}column {col} row {r}')
+                if list(a.get('dims') or []) != ['d'] or list(c.get('dims') or []) != ['d']:
+                    load_problems.setdefault('load columns', f'dims {a.get("dims")!r} / {c.get("dims")!r}, expected the dim argument')
+                if a.get('unit') != 'counts' or c.get('unit') != 'us':
+                    load_problems.setdefault('load columns', f'units {a.get("unit")!r} / {c.get("unit")!r}')
+    r2.check('load columns' not in load_problems, 'load columns', loc(lfi), {'problem': load_problems.get('load columns')}, key='load-columns')
+    r4.check('one-row' not in load_problems, 'one-row guard', loc(lfi), {'problem': load_problems.get('one-row')}, key='one-row')
+    # delimiter agreement and loader options
+    ds = {k.get('delimiter', ' ') for k in save_kwargs_seen}
+    dl = (load_kwargs or {}).get('delimiter')
+    compatible = len(ds) == 1 and all(isinstance(d, str) and len(d) == 1 and (dl == d or (dl is None and d.isspace())) for d in ds)
+    r1.check(compatible and load_kwargs is not None, 'delimiter', loc(sfi), {'savetxt': sorted(map(repr, ds)), 'loadtxt': repr(dl)}, key='delimiter')
+    lk = load_kwargs or {}
+    r1.check(lk.get('comments', '#') in ('#', '# ') and lk.get('skiprows', 0) == 0 and lk.get('max_rows') is None, 'loader options', loc(lfi),
+             {'comments': lk.get('comments', '#'), 'skiprows': lk.get('skiprows', 0), 'max_rows': lk.get('max_rows')}, key='skiprows')
     return run
+
+
+def _why(has_var, ndim, masked, coords, sel, edges) -> str:
+    if not has_var:
+        return 'no variances'
+    if ndim != 1:
+        return 'not one-dimensional'
+    if masked:
+        return 'masks'
+    if not coords:
+        return 'no coordinate'
+    if sel is None:
+        return 'ambiguous coordinate'
+    return 'bin edges'
+
+
+def _show(v):
+    if isinstance(v, SVar):
+        return T.show(v.term) if v.term is not None else f'⊤ ({v.why})'
+    if isinstance(v, Opaque):
+        return repr(v)
+    return repr(v)
